@@ -37,6 +37,7 @@ fn build(cfg: &Cfg) -> Result<String, String> {
     let mut cmd = Command::new("cargo");
     cmd.args(["build", "--offline", "-p", "c20drv", "--profile", &cfg.profile()]);
     if cfg.packed { cmd.args(["--features", "packed"]); }
+    if !cfg!(feature = "hidden-parse") { cmd.arg("--no-default-features"); }
     let out = cmd.current_dir(engine_dir()).env("CARGO_TARGET_DIR", &tdir).env("CARGO_NET_OFFLINE", "true").output().map_err(|e| e.to_string())?;
     if !out.status.success() { return Err(format!("build of {} failed:\n{}", cfg.name(), String::from_utf8_lossy(&out.stderr))); }
     Ok(format!("{}/{}/c20drv", tdir, cfg.profile()))
